@@ -539,14 +539,14 @@ def exhaustive_small(ctx):
 
 def cases(ctx):
     rng = ctx.rng
-    for _ in range(ctx.n(450, 5000)):
+    for _ in range(ctx.n(320, 5000)):
         yield "history", gen_history(ctx, rng)
-    for _ in range(ctx.n(40, 400)):
+    for _ in range(ctx.n(25, 400)):
         yield "long", gen_history(ctx, rng, ntxn=rng.choice([8, 12]), nq=2)
-    for _ in range(ctx.n(50, 450)):
+    for _ in range(ctx.n(35, 450)):
         yield from permuted_loads(ctx, rng)
     # all query names over the label alphabet on the final state
-    for _ in range(ctx.n(40, 350)):
+    for _ in range(ctx.n(30, 350)):
         c = gen_history(ctx, rng, nq=0)
         rel, origin, txns = c
         txns[-1][1] = 1
